@@ -28,13 +28,13 @@ CHECKS = {
     },
     "C12": {
         "model": "M-Wire Envelope.lean: encEnvStrict/encEnvLegacy, decEnvelope, decodeRequest, readRequest over Chunks, encodeResponse",
-        "expect_modules": ["ThriftVerif.Facts.ExpectWire"],
-        "expect_only": ["typeCodes_ok", "envelopeTypes_ok", "version_ok"],
+        "expect_modules": ["ThriftVerif.Facts.ExpectWire", "ThriftVerif.Facts.ExpectProto"],
+        "expect_only": ["typeCodes_ok", "envelopeTypes_ok", "version_ok", "muxSplit_ok", "muxJoin_ok"],
         "drivers": ["wiredrv"],
         "harness_cmds": ["wirecheck"],
         "harness_run": {"quick": ["{bin}/wirecheck --prop C12 --tier {tier} --driver {lean_bin}/wiredrv --corpus {root}/corpus/C12 --out {out}"]},
         "trusted_base": WIRE_TB,
-        "not_covered": "internal/envelope server/client and multiplexing glue are exercised by the harness only where listed in DESIGN.md",
+        "not_covered": "internal/envelope server/client are exercised by the harness only (oracle in Go); of the multiplexing glue the cut of the name is modelled (splitColon, tied by the muxSplit / muxJoin facts and the MUX driver op), the service table is not",
     },
 }
 
